@@ -170,30 +170,30 @@ impl Property for C10 {
     fn runs(&self, tier: Tier) -> usize {
         match tier {
             Tier::Quick => 24_000,
-            Tier::Thorough => 60_000,
+            Tier::Thorough => 600_000,
         }
     }
 
     fn run(&self, run_seed: u64, tier: Tier, acc: &mut Acc) -> Option<(Violation, Value)> {
         let mut rng = Rng::stream(run_seed, "workload");
         let mut crng = Rng::stream(run_seed, "config");
-        let (msb, mib) = match tier {
-            Tier::Quick => (7, 3),
-            Tier::Thorough => (10, 4),
-        };
+        // Both tiers use the same size bounds: a PDR run without generalisation blocks states one
+        // at a time, so its length grows with 2^(state bits) x depth, and the livelock sentinel
+        // (a violation of C10) must stay far above every legitimate run. Measured on the quick
+        // tier: at most 2,000 solver queries / 240,000 transport events per run, against a
+        // budget of 1.2 million events (6 million in the thorough tier, which explores more seeds).
+        let _ = tier;
+        let (msb, mib) = (7, 3);
         let harder = crng.chance(3, 4);
-        let max_depth = match tier {
-            Tier::Quick => 10,
-            Tier::Thorough => 24,
-        };
+        let max_depth = 10;
         let mut tries = 0;
         let (sys, r) = loop {
             tries += 1;
-            let sys = gen_system_c10(&mut rng, msb, mib, harder);
+            let sys = gen_system_c10(&mut rng, msb, mib, harder && tries <= 200);
             let r = reach(&sys, 0);
             // bound the length of the PDR run by the oracle's diameter (a workload bound, not a
             // watchdog: the step budget stays a violation)
-            if (r.fixpoint_depth <= max_depth && r.min_bad_depth.map(|d| d <= max_depth).unwrap_or(true)) || tries > 50 {
+            if r.fixpoint_depth <= max_depth && r.min_bad_depth.map(|d| d <= max_depth).unwrap_or(true) {
                 break (sys, r);
             }
         };
@@ -227,6 +227,22 @@ impl Property for C10 {
                 if scn.cfg.profile == 1 { "config.style.push_pop" } else { "config.style.check_sat_assuming" },
                 1,
             );
+            if let Ok(f) = std::env::var("PATSIM_C10_DUMP") {
+                use std::io::Write;
+                if let Ok(mut fh) = std::fs::OpenOptions::new().append(true).create(true).open(f) {
+                    let line = format!(
+                        "{} {} {} {} {} {} {}\n",
+                        scn.sys.state_bits(),
+                        r.fixpoint_depth,
+                        r.min_bad_depth.map(|d| d as i64).unwrap_or(-1),
+                        uses_cores as u8,
+                        r.reachable,
+                        obs.tstats.events,
+                        obs.sstats.iter().map(|s| s.checks).sum::<u64>()
+                    );
+                    let _ = fh.write_all(line.as_bytes());
+                }
+            }
             acc.count("probe.bad_reachable", r.min_bad_depth.is_some() as u64);
             acc.count("probe.bad_reachable_at_depth_ge_3", r.min_bad_depth.map(|d| d >= 3).unwrap_or(false) as u64);
             acc.count("probe.safe_with_fixpoint_depth_ge_3", (r.min_bad_depth.is_none() && r.fixpoint_depth >= 3) as u64);
